@@ -210,6 +210,20 @@ def run_world_property(out, binp, pid, pred, profiles, facets, sig, extra_head="
             mism.append((h, si, code))
         else:
             ignored += 1
+    if mism and suite == "world" and not os.environ.get("VERIF_NORECHECK"):
+        # a projection mismatch must reproduce: the histories concerned are run once more from their symbolic scripts
+        # (time enters by ageing against the real clock with a 2 s tolerance - on an overloaded machine a single request
+        # can take longer than that) and a mismatch counts only if the second run shows the same facet again
+        hs2 = {}
+        for h, si, code in mism:
+            hs2[h["id"]] = h
+        again, log = replay_scripts(binp, list(hs2.values()), pid + "_recheck", suite=suite)
+        if again:
+            res2, ok2, _ = evaluate(again, pred, pid + "_recheck", shards=8, extra_head=extra_head)
+            seen2 = set((k // 1000, code) for k, code in res2)
+            kept = [(h, si, code) for h, si, code in mism if (h["id"], code) in seen2]
+            out.cov["mismatches_not_reproduced"] = len(mism) - len(kept)
+            mism = kept
     for s, (h, si, code) in sorted(viol.items()):
         small = shrink_history(binp, h, pred, code, budget_s=60 if not thorough else 180, extra_head=extra_head)
         out.violations.append(dict(sig=s, what="predicate clause %d false on the implementation at a %s step" % (
